@@ -63,9 +63,31 @@ import numpy as np
 DEVIATIONS = [("offbyone", "Indices"), ("boundary", "NonEmpty"), ("dropflag", "FlagsPreserved"),
               ("inplace", "SourceUntouched"), ("lexorder", "UnpermutedInv"), ("jointnothin", "Indices"),
               # frame machine: RhatInsertsSelf (compute_rhat inserts the receiver into the caller's list), ConvInPlace
-              ("rhatinsertsself", "Frame"), ("rhatinsertsself_fn", "RhatFunctional"), ("convinplace", "Frame")]
+              ("rhatinsertsself", "Frame"), ("rhatinsertsself_fn", "RhatFunctional"), ("convinplace", "Frame"),
+              # data layouts: CastBack (statistics cast back to the number type of the stored chain), ConvKeepsType
+              ("castback", "LayoutIndependent"), ("convkeepstype", "LayoutIndependent"), ("castback_frame", "FLayoutIndependent")]
 
 RTOL = 1e-12
+# single precision layouts: numpy evaluates mean / variance / std / median of a float32 array in float32; every stored value is
+# exact, so a statistic carries a few roundings of size eps32 * (largest stored magnitude) (its square for the variance)
+EPS32 = 2.0 ** -23
+F32_SLACK = 64
+REF_LAYOUT = "f64"
+
+
+def clay(c):
+    """data layout of the source array of a configuration (cases stored before the layout dimension existed: reference)"""
+    return c.get("lay", REF_LAYOUT)
+
+
+def is_f32(lay):
+    from cuqiverif.c19_trace import F32_LAYOUTS
+    return lay in F32_LAYOUTS
+
+
+def stat_scale(s):
+    """largest magnitude stored at the coordinate of the spec's statistics record s"""
+    return max(1.0, max(abs(v) for v in s["vals"]) / float(s.get("den", 1)))
 
 
 # ---------------------------------------------------------------------------------------------------------------
@@ -75,11 +97,11 @@ def okey(o):
 
 
 def ckey(c):
-    return (c["g"], int(c["N"]), bool(c["joint"]))
+    return (c["g"], int(c["N"]), bool(c["joint"]), clay(c))
 
 
 def cstr(c):
-    return "g=%s/N=%d%s" % (c["g"], c["N"], "/joint" if c["joint"] else "")
+    return "g=%s/N=%d%s%s" % (c["g"], c["N"], "/joint" if c["joint"] else "", "" if clay(c) == REF_LAYOUT else "/lay=" + clay(c))
 
 
 def ostr(o):
@@ -111,6 +133,8 @@ def make_geometry(g):
         return G.MappedGeometry(G.Continuous1D(2), map=lambda x: x ** 2, imap=np.sqrt)
     if g == "step":
         return G.StepExpansion(np.linspace(0, 1, 4), n_steps=2)
+    if g == "half":
+        return G.MappedGeometry(G.Continuous1D(2), map=lambda x: x / 2, imap=lambda y: 2 * y)
     from cuqiverif.core import MachineryError
     raise MachineryError("unknown geometry kind %r emitted by the spec" % g)
 
@@ -120,7 +144,7 @@ def expected_array(stats, ncols):
     shape = tuple(max(p[a] for p in pos) + 1 for a in range(len(pos[0])))
     A = np.full(shape + (ncols,), np.nan)
     for s in stats:
-        A[tuple(s["pos"])] = s["vals"]
+        A[tuple(s["pos"])] = np.asarray(s["vals"], dtype=float) / float(s.get("den", 1))     # den in {1, 2}: exact
     return A
 
 
@@ -141,7 +165,7 @@ class Graph:
                 d[(k["op"]["name"], k["op"]["b"], k["op"]["t"])] = k
 
     def init_key(self, ck):
-        g, N, joint = ck
+        g, N, joint = ck[:3]
         o1 = (tuple(range(N)), True, True, g)
         o2 = (tuple(range(N + 1)), False, False, "imgF") if joint else ((), True, True, "none")
         return (o1, o2)
@@ -157,9 +181,10 @@ class Graph:
 class Live:
     """A real object (Samples or JointSamples) reached through real calls, with snapshots of its ancestors."""
 
-    def __init__(self, real, ancestors):
+    def __init__(self, real, ancestors, bases=()):
         self.real = real
         self.ancestors = ancestors          # list of (samples object, snapshot)
+        self.bases = list(bases)            # (wider array a strided source chain is a view of, copy of it)
 
 
 def snapshot(s):
@@ -181,6 +206,11 @@ def check_untouched(ctx, sig, case, live):
             ctx.mismatch("source/" + sig, case, "an operation altered a sample set it was called on (or an ancestor of it)",
                          expected={"samples": arr, "is_par": par, "is_vec": vec},
                          observed={"samples": s.samples, "is_par": s.is_par, "is_vec": s.is_vec})
+            return False
+    for big, cp in live.bases:
+        if not np.array_equal(big, cp):
+            ctx.mismatch("source/" + sig + "/base", case, "an operation wrote into the array the source chain is a (non-contiguous) view of",
+                         expected=cp, observed=big)
             return False
     return True
 
@@ -336,12 +366,15 @@ def step(ctx, graph, ck, geoms, live, e, chain_ops):
     for m in members(res):
         if id(m) not in known:
             anc.append((m, snapshot(m)))
-    return Live(res, anc)
+    return Live(res, anc, live.bases)
 
 
 # ---------------------------------------------------------------------------------------------------------------
 # statistics of a node
-def _close(a, b):
+def _close(a, b, lay=REF_LAYOUT, scale=1.0):
+    """double precision layouts: rtol 1e-12; single precision layouts: F32_SLACK roundings of size eps32 * scale"""
+    if is_f32(lay):
+        return abs(a - b) <= F32_SLACK * EPS32 * max(1.0, scale)
     return abs(a - b) <= RTOL * max(1.0, abs(b))
 
 
@@ -350,6 +383,8 @@ def check_stats(ctx, ck, c, real, node):
     sig0 = "%s/%s" % (cstr(c), ostr(o))
     case = {"kind": "node", "c": c, "obj": o}
     stats = node["stats"]
+    lay = clay(c)
+    ctx.facets["stats_layout_" + lay] = ctx.facets.get("stats_layout_" + lay, 0) + 1
     pos = [tuple(s["pos"]) for s in stats]
     shape = tuple(max(p[a] for p in pos) + 1 for a in range(len(pos[0])))
     with warnings.catch_warnings():
@@ -371,8 +406,9 @@ def check_stats(ctx, ck, c, real, node):
         p = tuple(s["pos"])
         exp = {"mean": float(frac(s["mean"])), "median": float(frac(s["med"])), "variance": float(frac(s["var"])),
                "std": math.sqrt(float(frac(s["var"])))}
+        sc = stat_scale(s)
         for name in ("mean", "median", "variance", "std"):
-            if not _close(float(got[name][p]), exp[name]):
+            if not _close(float(got[name][p]), exp[name], lay, sc * sc if name == "variance" else sc):
                 ctx.mismatch("stats/%s/%s/pos=%s" % (name, sig0, "x".join(map(str, p))), case,
                              "%s differs from the exact statistic of the stored chain" % name, exp[name], float(got[name][p]))
         for ci in s["ci"]:
@@ -384,13 +420,14 @@ def check_stats(ctx, ck, c, real, node):
             lo, hi, w = float(lohi[0][p]), float(lohi[1][p]), float(width[p])
             elo, ehi, ew = float(frac(ci["lo"])), float(frac(ci["hi"])), float(frac(ci["width"]))
             tag = "%s/pct=%d/pos=%s" % (sig0, ci["pct"], "x".join(map(str, p)))
-            if not (_close(lo, elo) and _close(hi, ehi)):
+            if not (_close(lo, elo, lay, sc) and _close(hi, ehi, lay, sc)):
                 ctx.mismatch("stats/ci/" + tag, case, "credible interval bounds differ from the percentiles "
                              "(100-p)/2 and 100-(100-p)/2 with linear interpolation", [elo, ehi], [lo, hi])
-            if not _close(w, ew):
+            if not _close(w, ew, lay, sc):
                 ctx.mismatch("stats/ci_width/" + tag, case, "interval width is not upper - lower bound", ew, w)
             med = float(got["median"][p])
-            if not (lo <= med + 1e-9 * max(1, abs(med)) and med <= hi + 1e-9 * max(1, abs(med))):
+            slack = F32_SLACK * EPS32 * sc if is_f32(lay) else 1e-9 * max(1, abs(med))
+            if not (lo <= med + slack and med <= hi + slack):
                 ctx.mismatch("stats/lomedhi/" + tag, case, "lower bound <= median <= upper bound fails", [elo, exp["median"], ehi],
                              [lo, med, hi])
 
@@ -434,6 +471,7 @@ def check_views(ctx, ck, c, real, node, shape):
     sig0 = "%s/%s" % (cstr(c), ostr(o))
     case = {"kind": "node", "c": c, "obj": o}
     stats = node["stats"]
+    lay = clay(c)
     n = len(o["cols"])
     exp = expected_array(stats, n)
     ctx.case(("views", ck, okey(o)), facet="views")
@@ -491,11 +529,12 @@ def check_views(ctx, ck, c, real, node, shape):
                     q = tuple(s["pos"])
                     ci = [x for x in s["ci"] if x["pct"] == p][0]
                     elo, ehi, ew = float(frac(ci["lo"])), float(frac(ci["hi"])), float(frac(ci["width"]))
-                    if not (_close(float(lohi[0][q]), elo) and _close(float(lohi[1][q]), ehi)):
+                    sc = stat_scale(s)
+                    if not (_close(float(lohi[0][q]), elo, lay, sc) and _close(float(lohi[1][q]), ehi, lay, sc)):
                         ctx.mismatch("stats/ci/%s/pos=%s" % (tag, "x".join(map(str, q))), case, "credible interval bounds differ from the "
                                      "percentiles (100-p)/2 and 100-(100-p)/2 (percent %s)" % ("omitted: documented default 95" if form == "default" else "by keyword"),
                                      [elo, ehi], [float(lohi[0][q]), float(lohi[1][q])])
-                    if not _close(float(width[q]), ew):
+                    if not _close(float(width[q]), ew, lay, sc):
                         ctx.mismatch("stats/ci_width/%s/pos=%s" % (tag, "x".join(map(str, q))), case, "interval width is not upper - lower bound",
                                      ew, float(width[q]))
     # --- statistic plots
@@ -508,6 +547,8 @@ def check_views(ctx, ck, c, real, node, shape):
         for s in pstats:
             A[tuple(s["pos"])] = fn(s)
         return A
+    psc = max(stat_scale(s) for s in pstats)
+    patol = {True: F32_SLACK * EPS32 * psc * psc, False: F32_SLACK * EPS32 * psc} if is_f32(lay) else {True: 0.0, False: 0.0}
     plots = [("plot_mean", (), arr(lambda s: float(frac(s["mean"])))), ("plot_median", (), arr(lambda s: float(frac(s["med"])))),
              ("plot_variance", (), arr(lambda s: float(frac(s["var"])))), ("plot_std", (), arr(lambda s: math.sqrt(float(frac(s["var"])))))]
     for k, ci0 in enumerate(pstats[0]["ci"]):
@@ -530,7 +571,7 @@ def check_views(ctx, ck, c, real, node, shape):
             ctx.mismatch("plot_handover/" + tag, case, "the statistic plot did not hand anything to geometry.plot", want, None)
             continue
         vals, _a, kw = calls[0]
-        if vals.shape != want.shape or not np.allclose(vals, want, rtol=RTOL, atol=0):
+        if vals.shape != want.shape or not np.allclose(vals, want, rtol=RTOL, atol=patol[name == "plot_variance"]):
             ctx.mismatch("plot_handover/" + tag, case, "the values handed to geometry.plot are not the exact statistic of the stored chain "
                          "(as function values for function samples in vector form)", want, vals)
         elif bool(kw.get("is_par", True)) != bool(node["plot"]["is_par"]):
@@ -587,7 +628,9 @@ def check_arviz(ctx, ck, c, real, node, geom):
     case = {"kind": "node", "c": c, "obj": o}
     stats = node["stats"]
     names = [_name(h["name"]) for h in az["handover"]]
-    rows = [np.array(stats[h["row"]]["vals"], dtype=float) for h in az["handover"]]
+    lay = clay(c)
+    den = [float(stats[h["row"]].get("den", 1)) for h in az["handover"]]
+    rows = [np.array(stats[h["row"]]["vals"], dtype=float) / den[i] for i, h in enumerate(az["handover"])]
     ret = az["returned"]
     d = len(names)
 
@@ -638,11 +681,13 @@ def check_arviz(ctx, ck, c, real, node, geom):
     run("ess", lambda: real.compute_ess(method="mean"), rows)
     nch = len(stats[0]["chains"])
     if nch:
+        from cuqiverif.c19_trace import in_layout, representable
         chains = []
         for j in range(nch):
-            A = np.array([stats[h["row"]]["chains"][j] for h in az["handover"]], dtype=float)
-            chains.append(Samples(A, geometry=geom, is_par=o["par"], is_vec=o["vec"]))
-        exp = [np.vstack([rows[i]] + [np.array(stats[az["handover"][i]["row"]]["chains"][j], dtype=float) for j in range(nch)])
+            A = np.array([np.array(stats[h["row"]]["chains"][j], dtype=float) / den[i] for i, h in enumerate(az["handover"])], dtype=float)
+            # the other chains in the layout of the source (function values that are not integers: reference layout)
+            chains.append(Samples(in_layout(A, lay if representable(A, lay) else REF_LAYOUT), geometry=geom, is_par=o["par"], is_vec=o["vec"]))
+        exp = [np.vstack([rows[i]] + [np.array(stats[az["handover"][i]["row"]]["chains"][j], dtype=float) / den[i] for j in range(nch)])
                for i in range(d)]
         run("rhat", lambda: real.compute_rhat(chains), exp)
 
@@ -650,20 +695,25 @@ def check_arviz(ctx, ck, c, real, node, geom):
 # ---------------------------------------------------------------------------------------------------------------
 def build_source(graph, ck):
     from cuqi.samples import Samples, JointSamples
-    g, N, joint = ck
+    from cuqiverif.c19_trace import in_layout
+    g, N, joint, lay = ck
     sk = graph.init_key(ck)
     node = graph.nodes.get((ck,) + sk)
     if node is None:
         from cuqiverif.core import MachineryError
         raise MachineryError("no node emitted for the initial state of %r" % (ck,))
     G1 = make_geometry(g)
-    x = Samples(expected_array(node["stats"], N), geometry=G1)
+    # the SAME exact values in every layout of the source array
+    x = Samples(in_layout(expected_array(node["stats"], N), lay), geometry=G1)
+    bases = [(x.samples.base, np.array(x.samples.base, copy=True))] if isinstance(x.samples.base, np.ndarray) else []
     if not joint:
-        return Live(x, [(x, snapshot(x))]), [G1, None], sk
+        return Live(x, [(x, snapshot(x))], bases), [G1, None], sk
     G2 = make_geometry("imgF")
-    y = Samples(expected_array(node["stats2"], N + 1), geometry=G2, is_par=False, is_vec=False)
+    y = Samples(in_layout(expected_array(node["stats2"], N + 1), lay), geometry=G2, is_par=False, is_vec=False)
+    if isinstance(y.samples.base, np.ndarray):
+        bases.append((y.samples.base, np.array(y.samples.base, copy=True)))
     js = JointSamples({"x": x, "y": y})
-    return Live(js, [(x, snapshot(x)), (y, snapshot(y))]), [G1, G2], sk
+    return Live(js, [(x, snapshot(x)), (y, snapshot(y))], bases), [G1, G2], sk
 
 
 def replay_config(ctx, graph, ck, n_walks, rng):
@@ -710,13 +760,20 @@ def replay_config(ctx, graph, ck, n_walks, rng):
 
 
 def run_deviations(ctx):
+    import os
+    from concurrent.futures import ThreadPoolExecutor
     from cuqiverif.core import MachineryError
-    for dev, inv in DEVIATIONS:
-        res = ctx.tlc("SamplesOps", cfg="SamplesOps.dev_%s.cfg" % dev, workers=4, timeout=300, expect_violation=True)
+    from cuqiverif import tlc as _t
+
+    def one(dev):                # runs of the same module started together need their own work directories
+        return ctx.tlc("SamplesOps", cfg="SamplesOps.dev_%s.cfg" % dev, workers=2, timeout=300, expect_violation=True,
+                       workdir=os.path.join(_t.WORK, "SamplesOps-dev_%s-%d" % (dev, os.getpid())))
+    with ThreadPoolExecutor(max_workers=4) as pool:
+        results = list(pool.map(one, [dev for dev, _ in DEVIATIONS]))
+    for (dev, inv), res in zip(DEVIATIONS, results):
         if res.ok or res.violated != inv:
             raise MachineryError("deviation %s must violate %s on the specification (vacuity test), got %r" % (dev, inv, res.violated))
         ctx.observations.setdefault("deviations_violating", {})[dev] = inv
-        from cuqiverif import tlc as _t
         _t.cleanup(res)
 
 
@@ -735,7 +792,7 @@ def fokey(o):
 
 
 def fckey(c):
-    return (c["g"], int(c["N"]), int(c["lst"]))
+    return (c["g"], int(c["N"]), int(c["lst"]), clay(c))
 
 
 def fskey(fo, fl):
@@ -790,7 +847,7 @@ class FrameGraph:
 
 
 def fcstr(c):
-    return "g=%s/N=%d/lst=%s" % (c["g"], c["N"], c["lst"])
+    return "g=%s/N=%d/lst=%s%s" % (c["g"], c["N"], c["lst"], "" if clay(c) == REF_LAYOUT else "/lay=" + clay(c))
 
 
 def fopname(op):
@@ -820,9 +877,13 @@ class World:
 
     def __init__(self, graph, ck):
         from cuqi.samples import Samples
+        from cuqiverif.c19_trace import in_layout
         self.geom = make_geometry(ck[0])
+        self.lay = ck[3]
         self.sk = graph.init_key(ck)
-        self.heap = [Samples(rows_array(graph.rows[ok]), geometry=self.geom) for ok in self.sk[0]]
+        # the stored chains of the configuration ("self" and the caller's chains) hold the spec's exact values in the layout
+        self.heap = [Samples(in_layout(rows_array(graph.rows[ok]), self.lay), geometry=self.geom) for ok in self.sk[0]]
+        self.bases = [(h.samples.base, np.array(h.samples.base, copy=True)) for h in self.heap if isinstance(h.samples.base, np.ndarray)]
         self.lst = [self.heap[i - 1] for i in self.sk[1]]
         self.idx = np.array([2, 0])             # FIdx of the spec
         self.ops = []
@@ -864,6 +925,9 @@ def frame_diff(world, before, op, caller_list_change=False):
                     {"len": len(world.lst), "ids": [world.oid(x) if hasattr(x, "samples") else repr(x) for x in world.lst]}))
     if not (isinstance(world.idx, np.ndarray) and world.idx.shape == before["idx"].shape and np.array_equal(world.idx, before["idx"])):
         out.append(("arg_idx", before["idx"], world.idx))
+    for big, cp in world.bases:
+        if not np.array_equal(big, cp):
+            out.append(("base", cp, big))
     return out
 
 
@@ -888,10 +952,14 @@ def _val_equal(a, b):
 _REF = {}
 
 
-def _arviz_ref(kind, arrays):
-    """reference: arviz applied directly to the spec's arrays (chains stacked in the spec's order), one variable at a time"""
+def _arviz_ref(kind, arrays, lay=REF_LAYOUT):
+    """reference: arviz applied directly to the spec's arrays (chains stacked in the spec's order), one variable at a time;
+    arrays that are representable in the number type of the layout are handed to arviz in that number type"""
     import arviz
-    key = (kind, tuple(a.tobytes() for a in arrays), arrays[0].shape)
+    from cuqiverif.c19_trace import LAYOUT_DTYPE, representable
+    if lay != REF_LAYOUT and all(representable(a, lay) for a in arrays):
+        arrays = [np.ascontiguousarray(a, dtype=LAYOUT_DTYPE[lay]) for a in arrays]
+    key = (kind, str(arrays[0].dtype), tuple(a.tobytes() for a in arrays), arrays[0].shape)
     if key not in _REF:
         d = arrays[0].shape[0]
         with warnings.catch_warnings():
@@ -901,11 +969,12 @@ def _arviz_ref(kind, arrays):
     return _REF[key]
 
 
-def _num_close(a, b):
+def _num_close(a, b, lay=REF_LAYOUT, scale=1.0):
     a, b = np.asarray(a, dtype=float).ravel(), np.asarray(b, dtype=float).ravel()
     if a.shape != b.shape:
         return False
-    return bool(np.all((np.isnan(a) & np.isnan(b)) | (np.abs(a - b) <= RTOL * np.maximum(1.0, np.abs(b)))))
+    tol = F32_SLACK * EPS32 * max(1.0, scale) if is_f32(lay) else RTOL * np.maximum(1.0, np.abs(b))
+    return bool(np.all((np.isnan(a) & np.isnan(b)) | (np.abs(a - b) <= tol)))
 
 
 def frame_call(world, op, pcts):
@@ -980,6 +1049,7 @@ def frame_compare(ctx, graph, world, e, got, tag, case):
             raise MachineryError("no statistics emitted for object %r" % (res["obj"],))
         for s in stats:
             p = tuple(s["pos"])
+            sc = stat_scale(s)
             exp = {"mean": float(frac(s["mean"])), "median": float(frac(s["med"])), "variance": float(frac(s["var"])),
                    "std": math.sqrt(float(frac(s["var"])))}
             for ci in s["ci"]:
@@ -993,7 +1063,7 @@ def frame_compare(ctx, graph, world, e, got, tag, case):
                     ctx.mismatch("stats_shape/%s/%s" % (nm, tag), case, "statistic is not per coordinate over the sample axis",
                                  list(p), list(arr.shape))
                     return False
-                if not _num_close(val, ex_):
+                if not _num_close(val, ex_, world.lay, sc * sc if nm == "variance" else sc):
                     ctx.mismatch("stats/%s/%s/pos=%s" % (nm, tag, "x".join(map(str, p))), case,
                                  "%s differs from the exact statistic of the stored chain" % nm, ex_, val)
                     ok = False
@@ -1004,8 +1074,8 @@ def frame_compare(ctx, graph, world, e, got, tag, case):
         if failed:
             ctx.mismatch("arviz_raise/ess/" + tag, case, "compute_ess raised for vector-form samples: %r" % (got,))
             return False
-        ref = _arviz_ref("ess", [rows_array(graph.rows[fokey(res["obj"])])])
-        if not _num_close(got, ref):
+        ref = _arviz_ref("ess", [rows_array(graph.rows[fokey(res["obj"])])], world.lay)
+        if not _num_close(got, ref, world.lay, float(np.nanmax(np.abs(ref))) if np.any(np.isfinite(ref)) else 1.0):
             ctx.mismatch("arviz_value/ess/" + tag, case, "ESS is not arviz.ess of the stored chain, variable by variable", ref, got)
             return False
         return True
@@ -1017,8 +1087,8 @@ def frame_compare(ctx, graph, world, e, got, tag, case):
             return False
         sk = world.sk
         arrays = [rows_array(graph.rows[sk[0][i - 1]]) for i in res["chains"]]
-        ref = _arviz_ref("rhat", arrays)
-        if not _num_close(got, ref):
+        ref = _arviz_ref("rhat", arrays, world.lay)
+        if not _num_close(got, ref, world.lay, float(np.nanmax(np.abs(ref))) if np.any(np.isfinite(ref)) else 1.0):
             ctx.mismatch("arviz_value/rhat/" + tag, case, "R-hat is not arviz.rhat of <<receiver>> followed by the caller's chains "
                          "in the caller's order (chains %r)" % (res["chains"],), ref, got)
             return False
@@ -1094,7 +1164,8 @@ def frame_step(ctx, graph, ck, world, e, pcts, calls=1, check=True):
         for where, exp, obs in frame_diff(world, before, op, caller_list_change=(name in ("thinlist", "swaplist"))):
             ctx.mismatch("frame/%s/%s/%s" % (pname, site, where), case,
                          "the call altered %s: every operation of a sample set leaves its receiver and its arguments unchanged"
-                         % {"receiver": "its receiver", "arg_list": "the caller's list of chains", "arg_idx": "the index array passed in"}.get(
+                         % {"receiver": "its receiver", "arg_list": "the caller's list of chains", "arg_idx": "the index array passed in",
+                            "base": "the array a stored chain is a (non-contiguous) view of"}.get(
                              where, "a chain passed in" if where.startswith("arg_chain") else "an unrelated sample set"), exp, obs)
             return False
         if not frame_compare(ctx, graph, world, e, got, tag, case):
@@ -1159,6 +1230,9 @@ def new_world(graph, ck, path=(), pcts=(), warm=False):
 def frame_selftest(graph, ck):
     """the fingerprints must notice an inserted list element, a changed sample and a changed flag (machinery guard)"""
     from cuqiverif.core import MachineryError
+    from cuqiverif.c19_trace import READONLY_LAYOUTS
+    if ck[3] in READONLY_LAYOUTS:           # the planted alteration below writes into the stored chain
+        return
     w = new_world(graph, ck)
     op = {"name": "rhat", "r": 1, "b": 0, "t": 1, "arg": "list"}
     b = w.fingerprint()
@@ -1169,7 +1243,7 @@ def frame_selftest(graph, ck):
     w.heap[0].samples[0, 0] += 1
     w.heap[w.sk[1][0] - 1].samples = w.heap[w.sk[1][0] - 1].samples[:, ::-1]
     w.idx.sort()
-    d2 = [x[0] for x in frame_diff(w, b, op)]
+    d2 = [x[0] for x in frame_diff(w, b, op) if x[0] != "base"]
     if d1 != ["arg_list"] or d2 != ["receiver", "arg_chain=0", "arg_idx"]:
         raise MachineryError("frame fingerprints do not detect planted alterations: %r %r" % (d1, d2))
 
@@ -1261,14 +1335,17 @@ def run_frame(ctx, only=None):
         if only is not None and ck != only:
             continue
         frame_selftest(graph, ck)
-        rng = random.Random("frame/%s/%r" % (ctx.seed, ck))
+        rng = random.Random("frame/%s/%r" % (ctx.seed, ck[:3] if ck[3] == REF_LAYOUT else ck))
         with contextlib.redirect_stdout(io.StringIO()):
-            ne, nw = replay_frame_config(ctx, graph, ck, n_walks, rng, pcts)
+            # every edge in every layout; fewer seeded walks in the configurations that differ from another one by the layout only
+            ne, nw = replay_frame_config(ctx, graph, ck, n_walks if ck[3] == REF_LAYOUT else max(5, n_walks // 5), rng, pcts)
+        ctx.facets["frame_layout_" + ck[3]] = ctx.facets.get("frame_layout_" + ck[3], 0) + ne
         tot_e += ne
         tot_w += nw
     if only is None and not ctx.violations:
         need = ["frame_" + n for n in FRAME_OPS] + ["frame_repeated_calls", "frame_rhat_on_thinned", "frame_rhat_after_swap", "frame_rhat_defined/single=1"] + \
                ["frame_rhat_defined/list=%d" % n for n in (1, 2, 3)]
+        need += ["frame_layout_" + k[3] for k in graph.configs]
         miss = [n for n in need if not ctx.facets.get(n)]
         if miss:
             raise MachineryError("vacuous frame replay: no case for %r" % (miss,))
@@ -1436,9 +1513,16 @@ def run(ctx, only=None):
         if only is not None and ck != only:
             continue
         with contextlib.redirect_stdout(io.StringIO()):
-            ne, nw = replay_config(ctx, graph, ck, n_walks, rng)
+            # every edge in every layout; fewer seeded chains in the configurations that differ from another one by the layout only
+            ne, nw = replay_config(ctx, graph, ck, n_walks if ck[3] == REF_LAYOUT else n_walks // 5, rng)
         tot_e += ne
         tot_w += nw
+    if only is None and not ctx.violations:
+        from cuqiverif.core import MachineryError
+        miss = sorted({k[3] for k in graph.configs if not ctx.facets.get("stats_layout_" + k[3])})
+        if miss or len({k[3] for k in graph.configs}) < 2:
+            raise MachineryError("vacuous layout dimension: no statistics replayed for the layouts %r" % (miss,))
+        ctx.observe("layouts_replayed", {k: ctx.facets[k] for k in sorted(ctx.facets) if k.startswith("stats_layout_") or k.startswith("frame_layout_")})
     n_trace = run_traces(ctx) if only is None else 0
     cand = [k for k in sorted(graph.nodes) if k[1][3] == "imgF" and not k[1][1] and not k[1][2] and len(k[1][0]) == 3]
     some = cand[0] if cand else sorted(graph.nodes)[len(graph.nodes) // 2]
